@@ -138,6 +138,9 @@ func c9mixCorpus(b string) []any {
 	out = append(out, pr[1].mk(b, []int{1, 1, 1, 1, 1, 0, 0, 1, 1, 0, 0, 0, 0, 0, 1, 0, 1, 0}))
 	// ... and K-C09-4 (both prune the same old revisions; the second one gives up with "encountered 2 deletion errors")
 	out = append(out, pr[0].mk(b, []int{1, 0, 0, 0, 1, 1, 0, 0, 1, 1, 0, 1, 1, 1, 0, 1, 0, 0}))
+	// ... and the pruner deletes the revision the other upgrade has meanwhile DEPLOYED and re-creates its number; both report
+	// success (observation: one deployed at the end, created twice with a delete in between; C09_pruning_deletes_deployed_refuted)
+	out = append(out, pr[1].mk(b, []int{0, 0, 1, 1, 1, 1, 1, 1, 0, 0, 1, 1, 1, 0, 0, 0, 0, 0}))
 	return out
 }
 
